@@ -112,12 +112,13 @@ func (e *Engine) verifyFuncGroup(fn *ssa.Function, spec *FuncSpec, prop, group s
 		x.entryTyp[n] = tv.T
 	}
 	env := &Env{x: x, st: st, heap: st.heap, old: st.heap, vars: vars, ovars: vars, pkg: x.specPkg(spec)}
+	x.letVars = map[string]TV{}
 	for _, l := range spec.Lets {
 		tv := x.evalTV(env, l.E, "let "+l.Name)
 		env = env.with(l.Name, tv)
 		vars = env.vars
+		x.letVars[l.Name] = tv
 	}
-	x.letVars = env.vars
 	for _, cl := range spec.Requires {
 		if x.active(cl) {
 			st.assume(x.evalClause(st, env, cl, spec))
@@ -217,24 +218,29 @@ func (x *Exec) cellByName(st *State, fr *Frame, name string) (TV, bool) {
 		}
 	}
 	if best == nil {
-		// parameters without cells (never happens in NaiveForm) / heap-allocated named variables
+		// escaping locals (including parameters whose address is taken): `new T (name)` values
+		var bestH *ssa.Alloc
+		for v := range fr.regs {
+			if a, ok := v.(*ssa.Alloc); ok && a.Heap && a.Comment == name {
+				if bestH == nil || a.Pos() > bestH.Pos() {
+					bestH = a
+				}
+			}
+		}
+		if bestH != nil {
+			t := bestH.Type().Underlying().(*types.Pointer).Elem()
+			switch p := fr.regs[bestH].(type) {
+			case VPtr:
+				if p.Reg != nil {
+					return TV{V: st.loadElem(t, p.Reg, p.Idx), T: t}, true
+				}
+			case VRef:
+				return TV{V: p, T: bestH.Type()}, true
+			}
+		}
 		for _, p := range fr.fn.Params {
 			if p.Name() == name {
 				return TV{V: fr.regs[p], T: p.Type()}, true
-			}
-		}
-		// escaping locals: `new T (name)` values
-		for v, val := range fr.regs {
-			if a, ok := v.(*ssa.Alloc); ok && a.Heap && a.Comment == name {
-				t := a.Type().Underlying().(*types.Pointer).Elem()
-				switch p := val.(type) {
-				case VPtr:
-					if p.Reg != nil {
-						return TV{V: st.loadElem(t, p.Reg, p.Idx), T: t}, true
-					}
-				case VRef:
-					return TV{V: p, T: a.Type()}, true
-				}
 			}
 		}
 		return TV{}, false
